@@ -41,6 +41,7 @@
 //#include "stdlib_private.h"
 
 extern char *__brkval;
+extern char *__malloc_heap_end;
 extern struct __freelist *__flp;
 extern int __allocation_counter;
 
@@ -161,6 +162,9 @@ void *realloc(void *ptr, size_t len)
         // if (cp1 == 0)
         //	cp1 = STACK_POINTER() - __malloc_margin;
         // if (cp < cp1) {
+        if (__malloc_heap_end != 0 && cp > __malloc_heap_end)
+            /* If that failed, we are out of luck. */
+            return 0;
         __brkval = cp;
         fp1->sz = len;
         return ptr;
